@@ -62,8 +62,13 @@ fn namings() -> Vec<(&'static str, Naming)> {
         ("fresh-like-f<n>", Naming::FreshLike),
         ("numeric-shifted-1000", Naming::NumericOff(1000)),
         ("next-fresh-index-f<k>", Naming::FreshNext),
+        // numeric term names; the slots of the REWRITE RULES are spelled like the e-graph's own class parameters
+        ("rule-slots-spelled-like-internal-slots", RULES_RESPELLED),
     ]
 }
+
+/// pseudo-naming: terms as under `Numeric`, rule slots `$a`/`$b` respelled `$f0`/`$f1`
+const RULES_RESPELLED: Naming = Naming::NumericOff(0);
 
 fn alpha(name: &str) -> Vec<MOp> {
     let mut v: Vec<MOp> = alphabet(name).into_iter().map(MOp::H).collect();
@@ -113,7 +118,11 @@ fn run(ops: &[MOp], q: &Queries, nm: Naming) -> XObs {
         let r = catch(|| match op {
             MOp::H(o) => apply_op(&mut eg, o, nm, &mut rec),
             MOp::Rw(i) => {
-                let rules = mk_rules_n::<MinSize>(*i);
+                let rules: Vec<Rewrite<Sym, MinSize>> = if nm == RULES_RESPELLED {
+                    rule_sets()[*i].1.iter().map(|(n, a, b)| Rewrite::new(n, &a.replace("$a", "$f0").replace("$b", "$f1"), &b.replace("$a", "$f0").replace("$b", "$f1"))).collect()
+                } else {
+                    mk_rules_n::<MinSize>(*i)
+                };
                 apply_rewrites(&mut eg, &rules);
             }
         });
